@@ -132,7 +132,7 @@ pub fn run_check(prop: &str, tier: &str) -> i32 {
         "C03" => histex_check(prop, tier, &[hp("edit", 4, 6), hp("hyb", 3, 5)], &["C03."], HX),
         "C04" => {
             let mut run = Run::new(prop, tier, "model_checking");
-            histex_part(&mut run, tier, &[hp("rot", 4, 5), hp("disrot", 4, 5)], &["C04."], HX);
+            histex_part(&mut run, tier, &[hp("rot", 4, 5), hp("disrot", 4, 5), hp("rotsnap", 4, 5)], &["C04."], HX);
             // many revisions of the same rights: a single long history, every step checked
             let n = if tier == "quick" { 10 } else { 24 };
             let mut path = vec![];
